@@ -103,6 +103,11 @@ Theorem C10_fiat_fq_opp : forall a, limbs_ok 8 a -> ev a < q -> limbs_ok 8 (fq_o
 Proof. exact fq_opp_spec. Qed.
 Theorem C10_fiat_fr_opp : forall a, limbs_ok 8 a -> ev a < r -> limbs_ok 8 (fr_opp a) /\ ev (fr_opp a) = (- ev a) mod r.
 Proof. exact fr_opp_spec. Qed.
+Theorem C10_fiat_fp_sub : forall a b, limbs_ok 12 a -> limbs_ok 12 b -> ev a < p -> ev b < p ->
+  limbs_ok 12 (fp_sub a b) /\ ev (fp_sub a b) = (ev a - ev b) mod p.
+Proof. exact fp_sub_spec. Qed.
+Theorem C10_fiat_fp_opp : forall a, limbs_ok 12 a -> ev a < p -> limbs_ok 12 (fp_opp a) /\ ev (fp_opp a) = (- ev a) mod p.
+Proof. exact fp_opp_spec. Qed.
 (* the hypotheses are satisfiable and the wrap-around case is exercised: (q - 1) + 2 = 1 *)
 Example C10_fiat_fq_add_run :
   let a := [0; 168919040; 3489660929; 1504343806; 1547153409; 1622428958; 2586617174; 313222494] in
